@@ -121,8 +121,9 @@ def run(chk, tier, seed):
         chk.broken.append("harness does not build against /repo: " + binary[-1500:])
         return
     rng = random.Random(seed * 9176 + 6)
-    roots = [(i, r) for i, r in D.roots_for(U, exclude=("k13bulk", "kf")) if not niche_under_bulk(r["ty"]) and not zst_elems(r["ty"])]
+    roots = [(i, r) for i, r in D.roots_for(U, exclude=("k13bulk", "kf", "arrayvec")) if not niche_under_bulk(r["ty"]) and not zst_elems(r["ty"])]
     pick = rng.sample(roots, min(len(roots), 45 if tier == "quick" else 200))
+    pick += [(i, r) for i, r in enumerate(U["roots"]) if "arrayvec" in r["tags"]]
     lines = []
     for ri, r in pick:
         lines.append("v%d ty_save %d bare %d 0" % (ri, ri, r.get("curver", 0)))
@@ -153,7 +154,7 @@ def run(chk, tier, seed):
             o = obs.get(cid, "MISSING")
             t6 = obs6(o)
             r = U["roots"][m["root"]]
-            ct = TG.coq_ty(r["ty"])
+            ct = TG.coq_ty(r["ty"]) if r["ty"]["k"] != "arrayvec" else None
             hx = D.hexlit(m["bytes"].hex() or "-")
             if len(o) > 20000:
                 chk.cov["skipped_giant_observations"] = chk.cov.get("skipped_giant_observations", 0) + 1
@@ -161,8 +162,13 @@ def run(chk, tier, seed):
             if t6 is None:
                 chk.violations.append(("implementation hung or produced no observation: " + o[:60], {"input": D.describe(U, m), "harness_line": lines2[m["n"] - 1][:2000], "build": md}))
                 continue
-            terms.append((m["n"], "agree_malformed %s %d %s %s %s" % (md, m["version"], ct, hx, t6)))
-            oterms.append((m["n"], "malformed_oracle %d %s %s %s" % (m["version"], ct, hx, t6)))
+            if r["ty"]["k"] == "arrayvec":
+                et, cap = TG.coq_ty(r["ty"]["t"]), r["ty"]["cap"]
+                terms.append((m["n"], "agree_arrayvec %s %d %s %d %s %s" % (md, m["version"], et, cap, hx, t6)))
+                oterms.append((m["n"], "arrayvec_oracle %s %d %s" % (et, cap, t6)))
+            else:
+                terms.append((m["n"], "agree_malformed %s %d %s %s %s" % (md, m["version"], ct, hx, t6)))
+                oterms.append((m["n"], "malformed_oracle %d %s %s %s" % (m["version"], ct, hx, t6)))
             chk.distinct.add((D.shape_key(r["ty"]), o.split(" ")[0] + (o.split(" ")[1] if o.startswith("ERR") else "")))
         bad, errs = C.coq_eval_bad("C06" + md, HEADER, terms, shard=150)
         obad, oerrs = C.coq_eval_bad("C06o" + md, HEADER, oterms, shard=150)
